@@ -1,10 +1,11 @@
 #!/bin/bash
 # usage: tools/try_mutant.sh <patch.diff> <ID> [more ./check args]   — applies the patch to /repo, runs ./check, reverts.
 set -u
-patch="$1"; shift
+patch="$(realpath "$1")"; shift
 cd /repo || exit 3
-if ! git diff --quiet; then echo "/repo has local changes; refusing"; exit 3; fi
-git apply "$patch" || { echo "patch does not apply"; exit 3; }
-trap 'git -C /repo checkout -- . ' EXIT
+if ! git diff --quiet || ! git diff --cached --quiet; then echo "/repo has local changes; refusing"; exit 3; fi
+trap 'git -C /repo reset -q --hard HEAD' EXIT
+git apply "$patch" 2>/dev/null || git apply --3way "$patch" 2>/dev/null || { echo "patch does not apply"; exit 3; }
+if git diff --name-only --diff-filter=U | grep -q .; then echo "patch conflicts"; exit 3; fi
 cd /verif && ./check "$@"
 echo "exit=$?"
